@@ -13,14 +13,16 @@ RULE = ("the same physical (g, Q[S-1]) data and uncertainties fed to all 12 vari
 
 
 def generate(rng, tier):
-    reps = 2 if tier == "quick" else 14
+    reps = 4 if tier == "quick" else 14
     cases = []
-    for _ in range(reps):
+    for rep in range(reps):
         state = rng.getstate()
         for R in range(3):
             for Q in range(4):
                 rng.setstate(state)  # the same physical data for all 12 variants
                 c = FL.gen_filter_case(rng, tier, R, Q, channel=2)
+                if rep < 4:
+                    FL.force_uncertainties(rng, c, dgr=(rep in (0, 1)), dy=(rep in (0, 2)))
                 cases.append(c)
         rng.random()
     # r > 0 and q > 0 so that conversions are invertible
